@@ -286,7 +286,8 @@ func c03Judge(src []byte) (sig, what string) {
 		return "token-stream-differs", fmt.Sprintf("token %d: gofmt(input) has %q, decorate+print has %q", i, ctx(wt), ctx(gt))
 	}
 	// comments: exactly the input's texts, in the order gofmt emits them
-	if strings.Join(gc, "\x00") != strings.Join(ic, "\x00") && strings.Join(gc, "\x00") != strings.Join(wc, "\x00") {
+	// go/printer itself moves //go:build lines and writes or drops bare "//" separator lines
+	if k := orderKey(gc); k != orderKey(ic) && k != orderKey(wc) {
 		if !bagEq(bag(gc), bag(ic)) {
 			lost, extra := []string{}, []string{}
 			gb, ib := bag(gc), bag(ic)
@@ -302,6 +303,21 @@ func c03Judge(src []byte) (sig, what string) {
 			}
 			sort.Strings(lost)
 			sort.Strings(extra)
+			squeeze := func(cs []string) map[string]int {
+				m := map[string]int{}
+				for _, c := range cs {
+					if c == "//" {
+						continue
+					}
+					m[strings.Join(strings.Fields(strings.ReplaceAll(c, "//", "// ")), "")]++
+				}
+				return m
+			}
+			if bagEq(squeeze(gc), squeeze(ic)) && !(len(lost) == 0 && len(extra) == 1 && extra[0] == "//") {
+				// every comment is there; only blanks inside comment lines differ: go/printer reformatted
+				// a comment group as a doc comment
+				return "doc-comment-reformatted", fmt.Sprintf("comment texts differ only in their inner blanks (go/printer reformatted a comment group that became a doc comment): e.g. input %q", lost)
+			}
 			if len(lost) == 0 && len(extra) == 1 && extra[0] == "//" {
 				// gofmt itself writes a bare "//" line between text and directives of one comment group
 				return "bare-comment-line-inserted", "go/printer inserted bare // separator lines because a blank line between two comment groups was not preserved"
@@ -455,4 +471,15 @@ func validateLinkNoSkeleton(c *Ctx, items []traceItem) {
 		v := strings.Join(res.Payloads("VERDICT "), " ")
 		c.Fail(Finding{Sig: "link-trace-rejected", Input: shortHash(it.Key), What: "Link.tla verdict " + v + " on snippet:\n" + truncate(it.Key, 600), Replay: it.Replay})
 	})
+}
+
+func orderKey(coms []string) string {
+	var out []string
+	for _, c := range coms {
+		if c == "//" || strings.HasPrefix(c, "//go:build") || strings.HasPrefix(c, "// +build") {
+			continue
+		}
+		out = append(out, c)
+	}
+	return strings.Join(out, "\x00")
 }
